@@ -409,7 +409,9 @@ def run_bounded(ctx):
     # in different relative orders, e.g. A:B + B:A:D)
     units = []
     if ctx.thorough:
-        order_types = {3: _type_multisets(3), 2: _type_multisets(2)}
+        order_types = {3: _type_multisets(3, ("num", "cat2", "cat3")) + [("num", "cat1", "cat2"), ("cat1", "cat1", "cat3"),
+                                                                        ("num", "num", "cat1"), ("cat1", "cat2", "cat3")],
+                       2: _type_multisets(2)}
     else:
         order_types = {3: [("cat3", "cat2", "cat3"), ("cat2", "cat3", "num")], 2: [("cat2", "cat3"), ("cat3", "num")]}
     for nf, type_list in order_types.items():
@@ -430,7 +432,7 @@ def run_bounded(ctx):
         rule="as rank-span-3factors-exact, but the factors inside every term are written in every order (independently per "
              "term; the all-ascending assignment is the scope above); a case = (types, ordered list of written terms, intercept)",
         exhaustive=True,
-        bound=("2-3 factors, " + ("all type multisets" if ctx.thorough else "type tuples (3,2,3 levels), (2 levels, 3 levels, numeric), (2,3 levels), (3 levels, numeric)")
+        bound=("2-3 factors, " + ("all 2-factor type multisets, 14 three-factor ones (numeric/2/3 levels + 4 with a 1-level factor)" if ctx.thorough else "type tuples (3,2,3 levels), (2 levels, 3 levels, numeric), (2,3 levels), (3 levels, numeric)")
                + ", all term sets <=3 terms x every assignment of within-term factor orders x every permutation of the terms x "
                "intercept first/absent" + ("; + 4-term sets: 4 seeded order assignments x 6 seeded permutations" if ctx.thorough else "")),
     ) as b:
@@ -440,8 +442,8 @@ def run_bounded(ctx):
     # in non-first level position; stored as category / object / plain numpy column used through C(...))
     units = []
     if ctx.thorough:
-        label_types = [(t, 4) for t in _type_multisets(1, ("cat1", "cat2", "cat3")) + _type_multisets(2) ] + [
-            (("num", "cat2", "cat3"), 4), (("cat2", "cat3", "cat3"), 3), (("num", "cat1", "cat2"), 4), (("num", "num", "cat3"), 4)]
+        label_types = [(t, 3) for t in _type_multisets(1, ("cat1", "cat2", "cat3")) + _type_multisets(2)] + [
+            (("num", "cat2", "cat3"), 3), (("cat2", "cat3", "cat3"), 3), (("num", "cat1", "cat2"), 3), (("num", "num", "cat3"), 3)]
     else:
         label_types = [(("cat1",), 1), (("cat2",), 1), (("cat3",), 1), (("cat2", "cat3"), 3), (("num", "cat3"), 3),
                        (("cat2", "cat2"), 3), (("num", "cat2", "cat3"), 2)]
@@ -455,7 +457,7 @@ def run_bounded(ctx):
         "rank-span-level-labels",
         rule="as rank-span-3factors-exact with every categorical factor's levels labelled by a scheme: " + ", ".join(LABEL_SCHEMES),
         exhaustive=True,
-        bound=("1-3 factors; " + ("all 1- and 2-factor type multisets and 4 three-factor tuples, term sets <=4 (<=3 for 2,3,3 levels) terms"
+        bound=("1-3 factors; " + ("all 1- and 2-factor type multisets and 4 three-factor tuples, all term sets <=3 terms"
                                  if ctx.thorough else
                                  "1 factor (1/2/3 levels), (2,3 levels), (numeric, 3 levels), (2,2 levels) with <=3 terms, (numeric, 2, 3 levels) with <=2 terms")
                + "; every permutation; intercept first/absent; 9 label schemes"),
